@@ -75,6 +75,8 @@ var ghost struct {
 
 	ioKeyed int // 1 once the key of the attribute serializeAttrs is printing has been written (C05)
 
+	ioNow time.Time // what the latest time.Now call returned (C16: the record's own instant)
+
 	ioSeq int // the sources of attributes collectArgs has consulted so far, as decimal digits in call order: 1 context, 2 logger chain, 3 call arguments (C07)
 
 	ioFmt int // content identity of the string the latest fmt.Sprintf call returned (C10 WithSkip)
@@ -300,7 +302,7 @@ func specInterrupts() bool {
 //@   keeps gkvp.key, kvp.key, kvp.val
 
 //@ func (*Entry).logContext
-//@   props C01 C02 C12 C13
+//@   props C01 C02 C12 C13 C16
 //@   requires s != nil && specFmtInv(s) && 0 <= s.extraFrames && s.extraFrames <= 1048576
 //@   requires [INV-dw] forall(k, 0, len(specDest(s, lvl)), !isnil(specDest(s, lvl)[k]) && !typeis(specDest(s, lvl)[k], LWs) && implies(typeis(specDest(s, lvl)[k], *logwr), dyn(specDest(s, lvl)[k], *logwr) != nil && !typeis(dyn(specDest(s, lvl)[k], *logwr).Writer, *logwr) && !typeis(dyn(specDest(s, lvl)[k], *logwr).Writer, LWs)))
 //@   requires [INV-dw.warn] forall(k, 0, len(specDest(s, WarnLevel)), !isnil(specDest(s, WarnLevel)[k]) && !typeis(specDest(s, WarnLevel)[k], LWs) && implies(typeis(specDest(s, WarnLevel)[k], *logwr), dyn(specDest(s, WarnLevel)[k], *logwr) != nil && !typeis(dyn(specDest(s, WarnLevel)[k], *logwr).Writer, *logwr) && !typeis(dyn(specDest(s, WarnLevel)[k], *logwr).Writer, LWs)))
@@ -322,6 +324,8 @@ func specInterrupts() bool {
 //@   at exit assert [C12.order] ghost.records >= old(ghost.records) + 1
 //@   at exit assert [C12.code] value == -3
 //@   at call (*Entry).print assert [C02.C14.once] callee.s == s && callee.lvl == lvl && callee.msg == msg && callee.stackFrame == stackFrame
+//@   at call (*Entry).print assert [C16.instant] callee.timestamp == ghost.ioNow
+//@   at call time.Now assert [C16.one-clock] true
 
 //@ func (*Entry).Verbose
 //@   props C01
@@ -1893,10 +1897,10 @@ func lemmaJSONRoundTrip(l Level) bool {
 //@   props C17
 //@   requires pack != nil
 //@   assigns pack.printOutToErrorDevice
-//@   ensures [C17.opt] implies(len(b) == 0, pack.printOutToErrorDevice == old(pack.printOutToErrorDevice))
+//@   ensures [C17.opt] implies(len(b) == 0, pack.printOutToErrorDevice)
 //@   ensures [C17.opt] implies(len(b) > 0, pack.printOutToErrorDevice == b[len(b)-1])
 //@   loop 1 invariant rangeindex >= -1 && (rangeindex < len(b) || rangeindex == -1)
-//@   loop 1 invariant implies(rangeindex < 0, pack.printOutToErrorDevice == old(pack.printOutToErrorDevice)) && implies(rangeindex >= 0, pack.printOutToErrorDevice == b[rangeindex])
+//@   loop 1 invariant implies(rangeindex < 0, pack.printOutToErrorDevice) && implies(rangeindex >= 0, pack.printOutToErrorDevice == b[rangeindex])
 
 // ---------------------------------------------------------------- C03 writer sets and routing
 
@@ -1951,19 +1955,19 @@ func specWrapped(x LogWriter, w io.Writer) bool {
 //@   ensures [C03.set] implies(!isnil(w), len(s.Error) == 1 && specWrapped(s.Error[0], w) && (typeis(w, LogWriter) || fresh(dyn(s.Error[0], *logwr))))
 //@
 //@ func (*dualWriter).Add
-//@   props C03
+//@   props C02 C03
 //@   requires s != nil
 //@   assigns s.Normal, s.Normal[:]
 //@   ensures [C03.add-nil] implies(isnil(w), unchanged(s.Normal))
-//@   ensures [C03.add] implies(!isnil(w), len(s.Normal) == old(len(s.Normal)) + 1 && specWrapped(s.Normal[len(s.Normal)-1], w) && forall(j, 0, old(len(s.Normal)), s.Normal[j] == old(s.Normal[j])))
+//@   ensures [C02.C03.add] implies(!isnil(w), len(s.Normal) == old(len(s.Normal)) + 1 && specWrapped(s.Normal[len(s.Normal)-1], w) && forall(j, 0, old(len(s.Normal)), s.Normal[j] == old(s.Normal[j])))
 //@   ensures grown(s.Normal, old(s.Normal)) || isnil(w)
 //@
 //@ func (*dualWriter).AddErrorWriter
-//@   props C03
+//@   props C02 C03
 //@   requires s != nil
 //@   assigns s.Error, s.Error[:]
 //@   ensures [C03.add-nil] implies(isnil(w), unchanged(s.Error))
-//@   ensures [C03.add] implies(!isnil(w), len(s.Error) == old(len(s.Error)) + 1 && specWrapped(s.Error[len(s.Error)-1], w) && forall(j, 0, old(len(s.Error)), s.Error[j] == old(s.Error[j])))
+//@   ensures [C02.C03.add] implies(!isnil(w), len(s.Error) == old(len(s.Error)) + 1 && specWrapped(s.Error[len(s.Error)-1], w) && forall(j, 0, old(len(s.Error)), s.Error[j] == old(s.Error[j])))
 //@   ensures grown(s.Error, old(s.Error)) || isnil(w)
 //@
 //@ func (*dualWriter).Set
@@ -2308,7 +2312,7 @@ func specTellable(m LogWriter) bool {
 //@   ensures [C13.quiet] implies(ghost.warns == old(ghost.warns), ghost.trN == old(ghost.trN) + old(len(specDest(s, lvl))))
 //@   ensures [C12.flags] flags == old(flags) && inTesting == old(inTesting)
 //@   ensures [C01.emits] ghost.emits >= old(ghost.emits)
-//@   at call (*Entry).printImpl assert [C02.C14.once] callee.s == s && callee.pc.lvl == lvl && callee.pc.msg == msg && callee.pc.now == timestamp && callee.pc.kvps == kvps && callee.pc.stackFrame == stackFrame
+//@   at call (*Entry).printImpl assert [C02.C14.C16.once] callee.s == s && callee.pc.lvl == lvl && callee.pc.msg == msg && callee.pc.now == timestamp && callee.pc.kvps == kvps && callee.pc.stackFrame == stackFrame
 
 // the continuation lines of the message are split off (and stored in the context) by printFirstLineOfMsg
 // on every path, from this record's own message
@@ -2365,7 +2369,7 @@ func specTellable(m LogWriter) bool {
 //@   props C02 C09 C11 C16
 //@   requires s != nil && e != nil && specFmtInv(e)
 //@   assigns s.buf, s.jsonMode, s.noColor, s.layout, s.utcTime, s.valueStringer, s.lvl, s.kvps, s.now, s.stackFrame, s.msg, s.clr, s.bg
-//@   ensures [C09.C14.set] s.lvl == lvl && s.now == timestamp && s.stackFrame == stackFrame && s.msg == msg && s.kvps == kvps
+//@   ensures [C09.C14.C16.set] s.lvl == lvl && s.now == timestamp && s.stackFrame == stackFrame && s.msg == msg && s.kvps == kvps
 //@   ensures [C11.derive] s.jsonMode == (specFormat(e) == fmtJSON) && s.noColor == (specFormat(e) != fmtColor)
 //@   ensures [C16.copy] s.layout == e.timeLayout && s.utcTime == e.modeUTC
 //@   ensures [C09.buf] len(s.buf) == 0 && samearray(s.buf, old(s.buf))
@@ -2898,6 +2902,7 @@ func specTellable(m LogWriter) bool {
 //@   ensures [C19.writeto-empty] implies(old(len(s.buf) <= s.off), n == 0 && err == nil && len(s.buf) == 0 && s.off == 0 && ghost.ioN == old(ghost.ioN))
 //@   ensures [C19.writeto-once] implies(old(len(s.buf) > s.off), ghost.ioN == old(ghost.ioN) + 1 && ghost.ioArg == old(ident(s.buf[s.off:])) && ghost.ioDest == ident(w))
 //@   ensures [C19.writeto-result] implies(old(len(s.buf) > s.off), n == ghost.ioRet && implies(!isnil(ghost.ioErr), err == ghost.ioErr) && implies(isnil(ghost.ioErr) && n != old(len(s.buf) - s.off), err == io.ErrShortWrite) && implies(isnil(ghost.ioErr) && n == old(len(s.buf) - s.off), err == nil && len(s.buf) == 0 && s.off == 0))
+//@   ensures [C19.writeto-consumed] implies(old(len(s.buf) > s.off) && !(isnil(ghost.ioErr) && n == old(len(s.buf) - s.off)), len(s.buf) - s.off == old(len(s.buf) - s.off) - n)
 //@   ensures [C19.writeto-lastread] s.lastRead == opInvalid
 
 //@ func (*PrintCtx).ReadFrom
@@ -3131,6 +3136,7 @@ func specTellable(m LogWriter) bool {
 //@   ensures [C19.writeto-empty] implies(old(len(b.buf) <= b.off), n == 0 && err == nil && len(b.buf) == 0 && b.off == 0 && ghost.ioN == old(ghost.ioN))
 //@   ensures [C19.writeto-once] implies(old(len(b.buf) > b.off), ghost.ioN == old(ghost.ioN) + 1 && ghost.ioArg == old(ident(b.buf[b.off:])) && ghost.ioDest == ident(w))
 //@   ensures [C19.writeto-result] implies(old(len(b.buf) > b.off), n == ghost.ioRet && implies(!isnil(ghost.ioErr), err == ghost.ioErr) && implies(isnil(ghost.ioErr) && n != old(len(b.buf) - b.off), err == io.ErrShortWrite) && implies(isnil(ghost.ioErr) && n == old(len(b.buf) - b.off), err == nil && len(b.buf) == 0 && b.off == 0))
+//@   ensures [C19.writeto-consumed] implies(old(len(b.buf) > b.off) && !(isnil(ghost.ioErr) && n == old(len(b.buf) - b.off)), len(b.buf) - b.off == old(len(b.buf) - b.off) - n)
 //@   ensures [C19.writeto-lastread] b.lastRead == opInvalid
 
 //@ func bytes::(*Buffer).ReadFrom
